@@ -273,7 +273,7 @@ def enumerate_and_replay(ctx, mode, lines, canon, name, entries, seen_pairs, all
                 coverage=coverage, workers=WORKERS)
     ctx.require_no_violation(r, name)
     if coverage:
-        ctx.require_coverage(r, ['Make', 'Header', 'Hunk', 'Line', 'NoEol', 'EndHunk', 'Finish'])
+        ctx.require_coverage(r, ['Pick', 'Make', 'Header', 'Hunk', 'Line', 'NoEol', 'EndHunk', 'Finish'])
     outs = [v for v in r.printed if v[0] == 'OUT']
     if not outs:
         raise MachineryError('no completed runs exported by ' + name)
